@@ -109,6 +109,10 @@ var c15ImportPool = [][2]string{
 	// internal directories, case variants
 	{"example.com/app/vendor/github.com/x/y", "y"}, {"github.com/x/y", "y"}, {"vendor/golang.org/x/net/http2", "http2"}, {"golang.org/x/net/http2", "http2"},
 	{"gopkg.in/yaml.v3", "yaml"}, {"example.com/yaml", "yaml"}, {"github.com/x/go-y", "y"}, {"example.com/internal/y", "y"}, {"example.com/Y", "y"}, {"example.com/y/v2", "y"}, {"example.com/y", "y"},
+	// package names that are not identifiers (a caller may pass the last path element), that are
+	// keywords, or that collide only after being made into identifiers
+	{"n/yaml.v3", "yaml.v3"}, {"o/yaml.v3", "yaml.v3"}, {"n/yaml_v3", "yaml_v3"}, {"n/go-cmp", "go-cmp"}, {"o/go-cmp", "go-cmp"}, {"o/go_cmp", "go_cmp"}, {"n/go", "go"}, {"o/go", "go"}, {"n/_go", "_go"},
+	{"n/type", "type"}, {"o/type", "type"}, {"n/2fa", "2fa"}, {"n/_2fa", "_2fa"}, {"n/ünï", "ünï"},
 }
 
 func c15Name(r *core.Rng) string {
@@ -175,6 +179,10 @@ func c15GenHistory(r *core.Rng, probe bool) c15History {
 				op = c15Op{T: "add", A: nm}
 			case x < 8:
 				op = c15Op{T: "alloc", A: nm}
+			case x == 9 && !probe && r.Chance(1, 2):
+				// the generator's own pass over the variables, run again after names were allocated and
+				// imports added (a public method: a library user may call it at any time)
+				op = c15Op{T: "resolve"}
 			default:
 				op = c15Op{T: "exists", A: nm}
 			}
@@ -249,7 +257,7 @@ func c15Oracle(h c15History, o c15Out) *c15Violation {
 			if r.B {
 				known[op.Scope][op.A] = true
 			}
-		case "suggest":
+		case "suggest", "resolve":
 		case "addimport":
 			q := r.S
 			if prev, ok := imp[op.B]; ok {
